@@ -97,7 +97,7 @@ fn blocks8(inp: &[u8], off: usize) -> ([[u8; 16]; 8], hz::Block8) {
     }
     (x, a)
 }
-//@ harness name=hz_cipher_round_par prop=C17,C20 tier=quick bits=2048 stub=1 est=170 desc="W: hazmat::cipher_round_par(blocks, keys): output i == MixColumns(ShiftRows(SubBytes(block i))) XOR key i for i = 0..7 (eight independent single rounds, respective keys); all 8 blocks and 8 keys symbolic; S-box uninterpreted on every lane (shared with the oracle), mix_columns_0 replaced by its proved specification MixColumns per block; bitslice, shift_rows_1, sub_bytes_nots, key XOR real"
+//@ harness name=hz_cipher_round_par prop=C17,C20 tier=quick bits=2048 stub=1 est=215 desc="W: hazmat::cipher_round_par(blocks, keys): output i == MixColumns(ShiftRows(SubBytes(block i))) XOR key i for i = 0..7 (eight independent single rounds, respective keys); all 8 blocks and 8 keys symbolic; S-box uninterpreted on every lane (shared with the oracle), mix_columns_0 replaced by its proved specification MixColumns per block; bitslice, shift_rows_1, sub_bytes_nots, key XOR real"
 verif_harness! {
     name: hz_cipher_round_par,
     bytes: 256,
